@@ -92,6 +92,8 @@ pub struct HistCfg {
     pub nu6_3_late: u32,
     /// a pool that receives its first commitment only this many blocks above the base
     pub late_pool: Option<(Pool, u32)>,
+    /// also hand the wallet transparent coins (put_received_transparent_utxo)
+    pub coins: bool,
 }
 
 impl HistCfg {
@@ -142,6 +144,7 @@ impl HistCfg {
             shard_start: false,
             nu6_3_late: 0,
             late_pool: None,
+            coins: false,
         }
     }
 
@@ -195,6 +198,7 @@ pub enum Op {
     Tip { h: u32 },
     Rewind { to: u32, actual: Option<u32>, f1: bool },
     PutRoots { pool: &'static str, index: u64 },
+    Coin { account: usize, value: u64, height: u32 },
     Finish,
 }
 
@@ -206,6 +210,7 @@ impl Op {
             Op::Tip { h } => json!({"op":"tip","h":h}),
             Op::Rewind { to, actual, f1 } => json!({"op":"rewind","to":to,"actual":actual,"f1":f1}),
             Op::PutRoots { pool, index } => json!({"op":"put_subtree_roots","pool":pool,"index":index}),
+            Op::Coin { account, value, height } => json!({"op":"coin","account":account,"value":value,"height":height}),
             Op::Finish => json!({"op":"finish"}),
         }
     }
@@ -236,6 +241,18 @@ pub struct Hist {
     pub roots_given: BTreeSet<(Pool, u64)>,
     pub subtree_roots_put: u64,
     pub deep_rewinds_attempted: u64,
+    /// transparent coins handed to the wallet
+    pub coins: Vec<Coin>,
+}
+
+#[derive(Clone, Debug)]
+pub struct Coin {
+    pub account: usize,
+    pub value: u64,
+    /// height it was reported mined at
+    pub height: u32,
+    /// false once a truncation below `height` un-mined it
+    pub mined: bool,
 }
 
 pub trait Monitor {
@@ -309,6 +326,7 @@ impl Hist {
             roots_given: BTreeSet::new(),
             subtree_roots_put: 0,
             deep_rewinds_attempted: 0,
+            coins: vec![],
         }
     }
 
@@ -451,6 +469,11 @@ impl Hist {
                     .flat_map(|(_, b)| b.txs.iter().map(|t| t.built.clone()))
                     .collect();
                 self.sim.rewind(to);
+                for c in self.coins.iter_mut() {
+                    if c.height > actual {
+                        c.mined = false;
+                    }
+                }
                 let sizes = self.sim.sizes_at(actual);
                 let mut f1 = false;
                 for p in POOLS {
@@ -495,6 +518,32 @@ impl Hist {
                 }
                 Err(e) => self.aborted = Some(format!("put_{}_subtree_roots({idx}) failed: {e}", pool.name())),
             }
+        }
+    }
+
+    /// Reports a transparent coin received by an account, mined at a height the wallet has scanned.
+    fn add_coin(&mut self) {
+        use zcash_client_backend::data_api::{WalletRead, WalletWrite};
+        use zcash_client_backend::wallet::WalletTransparentOutput;
+        use zcash_protocol::value::Zatoshis;
+        use zcash_transparent::bundle::{OutPoint, TxOut};
+        let Some((&height, _)) = self.w.scanned.iter().nth(self.rng.gen_range(0..self.w.scanned.len().max(1))) else { return };
+        let account = self.rng.gen_range(0..self.w.accounts.len());
+        let value = *[1u64, 4999, 5000, 5001, 60_000, 1_000_000, 123_456_789].choose(&mut self.rng).unwrap();
+        let Ok(recv) = self.w.db.get_transparent_receivers(self.w.accounts[account], false, false) else { return };
+        let mut addrs: Vec<_> = recv.keys().copied().collect();
+        addrs.sort_by_key(|a| format!("{a:?}"));
+        let Some(addr) = addrs.choose(&mut self.rng).copied() else { return };
+        let mut txid = [0u8; 32];
+        rand::RngCore::fill_bytes(&mut self.rng, &mut txid);
+        let txout = TxOut::new(Zatoshis::from_u64(value).unwrap(), addr.script().into());
+        let Some(out) = WalletTransparentOutput::from_parts(OutPoint::new(txid, self.rng.gen_range(0..3)), txout, Some(BlockHeight::from_u32(height)), None, None, None) else { return };
+        match self.w.db.put_received_transparent_utxo(&out) {
+            Ok(_) => {
+                self.coins.push(Coin { account, value, height, mined: true });
+                self.ops.push(Op::Coin { account, value, height });
+            }
+            Err(e) => self.aborted = Some(format!("put_received_transparent_utxo failed: {e:?}")),
         }
     }
 
@@ -706,6 +755,10 @@ impl Hist {
                 continue;
             }
             self.call(mons, r);
+            if self.cfg.coins && !self.w.scanned.is_empty() && self.rng.gen_bool(0.12) {
+                self.add_coin();
+                self.call(mons, r);
+            }
             if self.cfg.shard_start && self.rng.gen_bool(0.3) {
                 self.put_completed_roots();
                 self.call(mons, r);
